@@ -132,6 +132,28 @@ Fixpoint drive (x : exch) (stamp : Q) (sched : list Q) : exch * Q * list (Q * Z)
 Definition started (dt dr stamp0 : Q) (timeout redo : option Q) (m : Z) : exch :=
   let '(x, _, _) := x_step (x_ctor dt dr stamp0 timeout redo None) stamp0 (Start (Some m)) in x.
 
+(* The whole lifetime of an exchange: constructed at stamp0, started with message m, then the
+   driver above over the schedule. *)
+Definition lifetime (dt dr stamp0 : Q) (timeout redo : option Q) (m : Z) (sched : list Q)
+  : exch * Q * list (Q * Z) :=
+  drive (started dt dr stamp0 timeout redo m) stamp0 sched.
+
+(* The schedule read arithmetically, with no exchange object: walking the processing stamps
+   s_i = stamp + d_1 + ... + d_i,
+     - the first s_i >= tstop (when T > 0) fails the exchange and ends everything;
+     - otherwise an s_i >= last + rdur (when R > 0) is a retransmission stamp and becomes `last`.
+   Returns (failed, retransmission stamps). *)
+Fixpoint walk (tstop T R rdur last stamp : Q) (sched : list Q) : bool * list Q :=
+  match sched with
+  | [] => (false, [])
+  | d :: r =>
+      let s := qadd stamp d in
+      if qltb 0 T && qleb tstop s then (true, [])
+      else if qltb 0 R && qleb (qadd last rdur) s
+           then let '(f, l) := walk tstop T R rdur s s r in (f, s :: l)
+           else walk tstop T R rdur last s r
+  end.
+
 (* ---- parameter handling of the constructor (instantiated with GENERATED data) -------- *)
 (* The translator (props/C38/translate.py) extracts from Exchange.__init__ the parameter
    list and, for `self.timeout = A if B is not None else self.C` and the same statement for
